@@ -46,7 +46,7 @@ func (j *c06Job) phases(sc *conc.Scenario) []c06Phase {
 	if strings.HasPrefix(sc.Name, "S7 ") || strings.HasPrefix(sc.Name, "S7e ") || strings.HasPrefix(sc.Name, "S8 ") {
 		// the generated family: one driver per ladder path
 		if j.tier == "thorough" {
-			return []c06Phase{{false, 0}, {true, 1}, {false, 1}, {true, 2}, {false, 2}}
+			return []c06Phase{{false, 0}, {true, 1}, {false, 1}, {true, 2}}
 		}
 		return []c06Phase{{false, 0}, {true, 1}, {false, 1}}
 	}
@@ -200,7 +200,7 @@ func init() {
 		},
 		Bounds: map[string]string{
 			"quick":    "drivers: 51 shared-function pairs (one per node/comparator/logical/function kind; outcome-flipping documents) and 12 more with two succeeding documents of different sizes, 64 Parse||Parse pairs, 48 Parse||call, 16 three-thread, 8 two-functions-one-document, 10 two-operations-per-thread, and one generated driver for EVERY path of <=1 step over the full step alphabet (functions included) and every two-step path over the mid alphabet (674: a shared parsed function called by two threads on two documents picked by exhaustive scoring - both succeed, root containers of different sizes where possible; for the one-step paths also a driver in which both calls fail with a type error naming different found types), 4 drivers that first evaluate an object of 70 members and then two small ones concurrently, 7 drivers on documents whose leaves have Go types the process has never seen before (one per kind of step applied to them); all schedules with <=1 deviation (preemption or non-default pool answer) at every scheduling point, and <=2 deviations at coarse points (lock/pool operations, public API, parser phases, every retrieve/compute method)",
-			"thorough": "144 Parse||Parse pairs; two-thread drivers: <=2 deviations at every point and <=3 at coarse points; three-thread drivers: <=1 at every point, <=3 at coarse points; generated drivers for every path of <=2 steps over the full alphabet (about 3k), <=2 deviations",
+			"thorough": "144 Parse||Parse pairs; two-thread drivers: <=2 deviations at every point and <=3 at coarse points; three-thread drivers: <=1 at every point, <=3 at coarse points; generated drivers for every path of <=2 steps over the full alphabet (about 3k), <=1 deviation at every point and <=2 at coarse points",
 		},
 		New:   newC06,
 		Extra: c06RacePass,
